@@ -80,10 +80,16 @@ def gen(rng, tier, index):
         # raised inside the library's generators as RuntimeError - PEP 479)
         plans = [[{'stage': 'src_iter', 'pos': 0, 'exc': k_}] for k_ in
                  rng.sample([k for k in KINDS if k != 'stopiter'], 3)] + plans[:4]
+    # key iteration (pairs travel through the worker / the catching stage)
+    pre_ = pargen.abs_eval({'source': desc['source'], 'stages': desc['stages'][:pi]})
+    items = bool(pre_ is not None and pre_.items and pi == len(desc['stages']) - 1
+                 and (pst_['op'] == 'parmap' or not pargen.is_pool(pst_))
+                 and rng.random() < 0.4)
     cases = []
     for plan in plans:
         cases.append({
             'desc': desc, 'sched': pargen.gen_sched(rng), 'epochs': rng.choice([1, 1, 2]),
+            **({'items': True} if items else {}),
             'faults': plan, 'cost_seed': rng.randrange(1000),
             'think_seed': rng.randrange(1000), 'think_max': rng.choice([0, 0, 3]),
             'trace': trace})
